@@ -13,6 +13,8 @@ for d in /verif/seeded/$glob/; do
   id=$(basename $d)
   [ -f $d/meta.json ] || continue
   prop=$(python3 -c "import json;m=json.load(open('$d/meta.json'));print(m.get('caught_by',[m['breaks_property']])[0])" 2>/dev/null) || continue
+  # a seed recorded as not (yet) caught is listed, not required
+  if python3 -c "import json,sys;sys.exit(0 if json.load(open('$d/meta.json')).get('status')=='missed' else 1)"; then echo "$id: recorded as missed (no check reports it yet)"; continue; fi
   ( cd $W/repo && { git apply $d/patch.diff 2>/dev/null || git apply -3 $d/patch.diff 2>/dev/null; } ) || { echo "$id: patch no longer applies"; git -C $W/repo reset -q --hard HEAD; fail=1; miss="$miss $id"; continue; }
   out=$(cd $W/verif && ./check $prop quick 2>&1); code=$?
   git -C $W/repo reset -q --hard HEAD
